@@ -239,5 +239,52 @@ def check_masked_alleles_never_called(tier, seed):
     return {"bound": "4 haplotypes x zero-prior position {none,0,1,2,3,all} x REFMASKED {F,T} x inbreeding {0,.3} x {call, call-exact}, %d read sets" % reps, "evaluations": ev, "distinct_nontrivial": nontriv, "failures": fails, "samples": samples, "exhaustive": False}
 
 
-CHECKS = [check_locus_prior, check_masked_alleles_never_called]
+def check_program_loci(tier, seed):
+    """the loci that call / call-exact / call-pedigree actually iterate over (program.loci(), options given on the real
+    command line) carry the filtered allele list, the masked flag and the normalised prior -- also for ALT-less records"""
+    import mchap
+    from mchap.application import call_pedigree as CALLP
+
+    rng = np.random.default_rng(seed + 162)
+    tmp = tempfile.mkdtemp(prefix="verif_c16p_")
+    ev = nontriv = 0
+    fails = []
+    data = os.path.join(os.path.dirname(mchap.__file__), "tests", "test_io", "data")
+    bams = [os.path.join(data, "simple.sample1.bam"), os.path.join(data, "simple.sample2.deep.bam"), os.path.join(data, "simple.sample3.bam")]
+    try:
+        recs = gen_records(rng, 30 if tier == "quick" else 120)
+        path = os.path.join(tmp, "in.vcf")
+        write_vcf(path, recs)
+        progs = (("call", CALL.program, []), ("call-exact", CALLX.program, []), ("call-pedigree", CALLP.program, ["--sample-parents", os.path.join(data, "simple.pedigree.132.txt")]))
+        for tag, flt in ((None, None), ("AFP", None), (None, ("AFP", ">=", "0.25")), ("AFP", ("AFP", ">", "0")), ("PF", ("PF", ">=", "1")), (None, ("ACP", ">", "1.5"))):
+            fstr = None if flt is None else "%s%s%s" % flt
+            fl = None if flt is None else (flt[0], flt[1], float(flt[2]))
+            for name, cls, extra in progs:
+                cmd = ["mchap", name, "--bam"] + bams + ["--ploidy", "4", "--haplotypes", path] + extra
+                if tag:
+                    cmd += ["--prior-frequencies", tag]
+                if fstr:
+                    cmd += ["--filter-input-haplotypes", fstr]
+                try:
+                    loci = list(cls.cli(cmd).loci())
+                except Exception as ex:
+                    ev += 1
+                    if len(fails) < 4:
+                        fails.append({"key": "rt/program_loci_raises", "check": "mchap.application.call_baseclass.program.loci", "input": {"program": name, "prior_frequencies": tag, "filter": fstr}, "observed": repr(ex), "expected": "loci"})
+                    continue
+                for r, locus in zip(recs, loci):
+                    ev += 1
+                    eseqs, efr, emask = expected_locus(r, tag, fl)
+                    nontriv += len(eseqs) < len(r["seqs"]) or emask
+                    gf = np.asarray(locus.frequencies, dtype=float)
+                    got = ([locus.sequence] + list(locus.alts), bool(locus.mask_reference_allele))
+                    if got != (eseqs, emask) or len(gf) != len(efr) or not np.allclose(gf, efr, rtol=1e-12, atol=0, equal_nan=True):
+                        if len(fails) < 4 and not any(f["key"] == "rt/program_loci_filtered_and_masked" for f in fails):
+                            fails.append({"key": "rt/program_loci_filtered_and_masked", "check": "mchap.application.call_baseclass.program.loci", "input": {"program": name, "record": {k: r[k] for k in ("seqs", "AFP", "ACP", "AC", "PF", "masked")}, "prior_frequencies": tag, "filter": fstr}, "observed": {"alleles": got[0], "masked": got[1], "frequencies": gf.tolist()}, "expected": {"alleles": eseqs, "masked": emask, "frequencies": np.asarray(efr).tolist()}, "how": "exactly the failing ALT alleles removed, a failing reference masked (also on ALT-less records), prior normalised over the retained alleles"})
+    finally:
+        shutil.rmtree(tmp, ignore_errors=True)
+    return {"bound": "generated records + ALT-less records x 6 (prior tag, filter) settings x {call, call-exact, call-pedigree} through the CLI parser and program.loci()", "evaluations": ev, "distinct_nontrivial": int(nontriv), "failures": fails, "samples": [], "exhaustive": False}
+
+
+CHECKS = [check_locus_prior, check_masked_alleles_never_called, check_program_loci]
 REPLAY = {}
